@@ -315,7 +315,8 @@ class Schema:
         if from_path is None:
             from_path = []
 
-        from_path_str = tuple(str(i) for i in from_path)
+        # (rule paths are compared part by part through the string form of their parts)
+        from_path_str = tuple(str(i) for i in DataPath(*from_path).parts)
         from_path_simple = DataPath(*from_path).simplify()
 
         items = {}
